@@ -138,6 +138,28 @@ def run(run):
             run.case(tuple(sorted((k, str(v)) for k, v in cfg.items())), nontrivial=True)
             if mode == "snr" and comp == "AWGNChannel":
                 tools.append((cfg, fx, y, sig, p))
+    # one channel object used repeatedly (complex, complex, real, complex input): every call delivers the configured power - no drift of the parameter
+    for comp, mkc, family in (("AWGNChannel", lambda P: AWGNChannel(avg_noise_power=P), "gaussian"), ("LaplacianChannel", lambda P: LaplacianChannel(avg_noise_power=P), "laplacian"),
+                              ("NonlinearChannel", lambda P: NonlinearChannel(lambda v: v, add_noise=True, avg_noise_power=P, complex_mode="cartesian"), "gaussian")):
+        for ptype, P in (("float", 0.5), ("tensor", torch.tensor(0.5)), ("int", 2)):
+            P0 = float(P)           # the configured value, read before any call
+            try:
+                ch = mkc(P)
+            except Exception:
+                continue
+            for call, cplx in enumerate((True, True, False, True), start=1):
+                shape = (1000, 1000)
+                x = signal(cplx, 1.0, shape)
+                cfg = {"channel": comp, "mode": "power", "complex": cplx, "value": P0, "value_type": ptype, "signal_power": 1.0, "ndim": 2, "call": call}
+                try:
+                    y = ch(x)
+                except Exception as ex:
+                    run.violate(comp, "channel_raised", cfg, {"error": repr(ex)[:200]})
+                    break
+                p_, mean_ppm = measure(y - x, N * (2 if cplx else 1))
+                add({"ev": "Noise", "N": N * (2 if cplx else 1), "family": family, "noise_cdb": cdb(p_), "expected_cdb": cdb(P0), "mean_ppm": mean_ppm, "verbatim": -1, "scaling": -1,
+                     "shape_ok": tuple(y.shape) == shape and (y.is_complex() == cplx)}, comp, cfg)
+                run.case(tuple(sorted((k, str(v)) for k, v in cfg.items())), nontrivial=True)
     # half-precision signals through the SNR path: the noise power is still computed at full resolution
     for comp, mk, family in (("AWGNChannel", lambda v: AWGNChannel(snr_db=v), "gaussian"), ("LaplacianChannel", lambda v: LaplacianChannel(snr_db=v), "laplacian")):
         for dt in (torch.float16, torch.bfloat16):
